@@ -16,10 +16,18 @@ WALKERS = [
 ]
 
 
+def arg_field_store(stmt, argidx, field):
+    """statement stores into (*<arg argidx>).<field idx>"""
+    if stmt["k"] != "Assign":
+        return False
+    pj = stmt["p"]["proj"]
+    return stmt["p"]["l"] == argidx and len(pj) == 2 and pj[0][0] == "deref" and pj[1][0] == "field" and pj[1][1] == field
+
+
 def _dir_cluster_term(t):
     """the directory's own start cluster: (*dir_info).cluster or the dir_cluster argument"""
     t = strip_refs(t)
-    if t[0] == "arg" and t[2] == "dir_cluster":
+    if t[0] == "arg" and t[1] >= 2:      # the ClusterId parameter of write_new_directory_entry (type checked by rustc)
         return True
     return t[0] == "place" and last_field(t) == "cluster" and strip_refs(t[1])[0] == "arg"
 
@@ -91,12 +99,27 @@ def ls4(F, R):
                         for b, t in ncs:
                             if b3 in fn.reach_after(b, cut_blocks=defblocks):
                                 problems.append("after next_cluster the walk can reach the next round's block range without recomputing its start `%s` (stale block numbers for the new cluster)" % (st[2] or "_%d" % st[1]))
+                        # in-loop recomputations take the cluster that the FAT lookup / allocation just delivered, all of it
+                        loopblocks = set()
+                        for (h_, body_, backs_) in fn.loops():
+                            if b3 in body_:
+                                loopblocks |= set(body_)
+                        for dd in fn.defs().get(st[1], []):
+                            if dd[0] not in ("assign", "call") or dd[1] not in loopblocks:
+                                continue
+                            dt_ = strip_refs(fn.term_of_rvalue(dd[3], dd[1]) if dd[0] == "assign" else fn.call_term(dd[2], dd[1]))
+                            if dt_[0] == "call" and dt_[1] and path_matches(dt_[1], "FatVolume::cluster_to_block"):
+                                x = dt_[2][1]
+                                rs_ = roots(fn, x, stop=lambda n_: path_matches(n_, "FatVolume::next_cluster") or path_matches(n_, "FatVolume::alloc_cluster"))
+                                good_ = bool(rs_) and all(r[0] == "call" and r[1] and (path_matches(r[1], "FatVolume::next_cluster") or path_matches(r[1], "FatVolume::alloc_cluster")) for r in rs_)
+                                if not good_:
+                                    problems.append("inside the walk the block-range start is recomputed from %s, which is not (only) the cluster just returned by next_cluster / alloc_cluster" % tstr(x))
                         for d in var_def_terms(fn, st[1]):
                             okd = (d[0] == "call" and d[1] and (path_matches(d[1], "FatVolume::cluster_to_block")))
-                            okd = okd or tmatch(d, ("call", "Add::add", [("place", ("arg", "self"), ("*", "lba_start")), "_"])) is not None
+                            okd = okd or tmatch(d, ("call", "Add::add", [("place", ("arg", 1), ("*", "lba_start")), "_"])) is not None
                             if not okd:
                                 problems.append("block-range start assigned from %s" % tstr(d))
-                            if tmatch(d, ("call", "Add::add", [("place", ("arg", "self"), ("*", "lba_start")), "_"])) is not None:
+                            if tmatch(d, ("call", "Add::add", [("place", ("arg", 1), ("*", "lba_start")), "_"])) is not None:
                                 if "first_root_dir_block" not in tstr(d):
                                     problems.append("FAT16 root region start is %s, expected lba_start + first_root_dir_block" % tstr(d))
                     elif st[0] == "call" and st[1] and path_matches(st[1], "FatVolume::cluster_to_block"):
@@ -184,15 +207,17 @@ def sk2(F, R):
     st0 = st1 = None
     for b, i, s in fn.stmts():
         if s["k"] == "Assign" and s["p"]["proj"]:
-            ps = fn.place_str(s["p"])
+            # find_data_on_disk(self, volume_idx, start, file_start, desired_offset): positions 3, 4, 5
+            pj = s["p"]["proj"]
+            fld = pj[1][1] if s["p"]["l"] == 3 and len(pj) == 2 and pj[0][0] == "deref" and pj[1][0] == "field" else None
             v = fn.term_of_rvalue(s["rv"], b)
-            if ps == "(*start).0" and v[:2] == ("c", 0):
+            if fld == 0 and v[:2] == ("c", 0):
                 st0 = (b, i)
-            if ps == "(*start).1" and v[0] == "arg" and v[2] == "file_start":
+            if fld == 1 and v[:2] == ("arg", 4):
                 st1 = (b, i)
     ok = st0 is not None and st1 is not None
     if ok:
-        g = g_cmp("Lt", True, lambda a: a[0] == "arg" and a[2] == "desired_offset", lambda z: tstr(z) == "(*start).0")
+        g = g_cmp("Lt", True, lambda a: a[:2] == ("arg", 5), lambda z: z[0] == "place" and z[1][:2] == ("arg", 3) and tuple(z[2]) == ("*", "0"))
         ok = guarded(fn, st0[0], g)[0] and guarded(fn, st1[0], g)[0]
     R.require(ok, fn, "restart", "backwards seek must reset the cursor to (0, file_start) under desired_offset < start.0", fn.loc(0))
     # the first subtraction desired_offset - start.0 is only reached with start.0 <= desired_offset or after the restart
@@ -200,8 +225,9 @@ def sk2(F, R):
     ncs = [(b, t) for b, t in fn.calls() if call_matches(t, ("FatVolume::next_cluster",))]
     okadv = False
     for b, t in ncs:
-        cur = tstr(strip_refs(fn.term_of_operand(t["args"][2], b)))
-        stores = [(bb, ii) for bb, ii, s in fn.stmts() if s["k"] == "Assign" and s["p"]["proj"] and fn.place_str(s["p"]) == "(*start).1" and has_sub(fn.term_of_rvalue(s["rv"], bb), lambda q: q[0] == "call" and q[3] == b)]
+        curt = strip_refs(fn.term_of_operand(t["args"][2], b))
+        cur = "(*start).1" if (curt[0] == "place" and curt[1][:2] == ("arg", 3) and tuple(curt[2]) == ("*", "1")) else tstr(curt)
+        stores = [(bb, ii) for bb, ii, s in fn.stmts() if arg_field_store(s, 3, 1) and has_sub(fn.term_of_rvalue(s["rv"], bb), lambda q: q[0] == "call" and q[3] == b)]
         okadv = cur == "(*start).1" and len(stores) == 1
     R.require(okadv, fn, "advance-in-place", "the FAT walk must read from and store into the caller's cursor `start.1` on every step (a private copy leaves the caller with a stale cursor when the walk ends with EndOfFile)", fn.loc(ncs[0][0]) if ncs else None)
     # caller side: write() links the new cluster after the cursor it passed
@@ -382,16 +408,18 @@ def dd1(F, R):
     R.require(okc, fn, "dot:cluster", "'.' must point at the new directory's own cluster, got %s" % newc, fn.loc(ents[0][0]))
     R.require("parent_dir" in tstr(dotdot["name"]) and tstr(dotdot["entry_offset"]).endswith("0x20") and dotdot["size"][:2] == ("c", 0), fn, "dotdot:name-offset", "'..' must be parent_dir() at offset 32, size 0", fn.loc(ents[1][0]))
     pc = strip_refs(dotdot["cluster"])
-    defs = [tstr(d) for d in (var_def_terms(fn, pc[1]) if pc[0] == "var" else [pc])]
-    okp = sorted(defs) == sorted(["EMPTY=0", "parent"]) or (any("EMPTY" in d for d in defs) and any(d == "parent" for d in defs) and len(defs) == 2)
+    dterms = (var_def_terms(fn, pc[1]) if pc[0] == "var" else [pc])
+    defs = [tstr(d) for d in dterms]
+    PARENT = 4   # make_dir(self, block_cache, time_source, parent, sfn, att)
+    okp = len(dterms) == 2 and any("EMPTY" in tstr(d) for d in dterms) and any(strip_refs(d)[:2] == ("arg", PARENT) for d in dterms)
     if okp and pc[0] == "var":
         for d in fn.defs().get(pc[1], []):
             if d[0] == "assign" and "EMPTY" in tstr(fn.term_of_rvalue(d[3], d[1])):
-                g, _ = guarded(fn, d[1], g_cmp("Eq", True, lambda a: tstr(a) == "parent", lambda z: "ROOT_DIR" in tstr(z)))
+                g, _ = guarded(fn, d[1], g_cmp("Eq", True, lambda a: strip_refs(a)[:2] == ("arg", PARENT), lambda z: "ROOT_DIR" in tstr(z)))
                 okp = okp and g
     R.require(okp, fn, "dotdot:cluster", "'..' must hold the parent's cluster, or 0 exactly when the parent is the root directory; got %s" % defs, fn.loc(ents[1][0]))
     for nm, e in (("dot", dot), ("dotdot", dotdot)):
-        R.require(tstr(e["attributes"]) == "att", fn, nm + ":attributes", "%s must carry the directory attributes passed in" % nm, fn.loc(0))
+        R.require(strip_refs(e["attributes"])[:2] == ("arg", 6), fn, nm + ":attributes", "%s must carry the directory attributes passed in" % nm, fn.loc(0))
     # placement: serialize(dot) -> block[0..32], serialize(dotdot) -> block[32..64]
     cps = [(b, t) for b, t in fn.calls() if (callee_of(t) or "").endswith("copy_from_slice")]
     okpl = len(cps) == 2 and fn.dominates(cps[0][0], cps[1][0])
@@ -476,6 +504,14 @@ def io1(F, R):
 # RD1 / WR1 / SK5: the offset -> (block, offset-in-block, available) translation and the copy loops
 
 
+def min_args(t):
+    """operands of a (nested, any order, function or method form) minimum"""
+    t0 = strip_refs(t)
+    if t0[0] == "call" and t0[1] and t0[1].split("::")[-1] == "min" and len(t0[2]) == 2:
+        return min_args(t0[2][0]) + min_args(t0[2][1])
+    return [t]
+
+
 def _is_fdd_comp(t, k):
     """term is component k of a find_data_on_disk result (through `?` or a match variable)"""
     t = strip_refs(t)
@@ -494,25 +530,42 @@ def sk5(F, R):
         ok = v[0] == "agg" and len(v[3]) == 3
         if ok:
             blk, off, av = v[3]
-            p_blk = ("call", "Add::add", [("call", "FatVolume::cluster_to_block", ["_", ("place", ("arg", "start"), ("*", "1"))]),
-                                          ("agg", "BlockCount", [("bin", "Div", ("bin", "Sub", ("arg", "desired_offset"), ("place", ("arg", "start"), ("*", "0"))), ("c", 512))])])
-            ok = tmatch(blk, p_blk) is not None
-            ok = ok and tmatch(off, ("cast", ("bin", "Rem", ("arg", "desired_offset"), ("c", 512)))) is not None
-            ok = ok and tmatch(av, ("bin", "Sub", ("c", 512), ("cast", ("bin", "Rem", ("arg", "desired_offset"), ("c", 512))))) is not None
+            from .poly import peq, ADD, SUB, DIV, REM, C
+            want = ("arg", 5, "desired_offset")
+            st0 = ("place", ("arg", 3, "start"), ("*", "0"))
+            ctb = [q for q in subterms(blk) if q[0] == "call" and q[1] and path_matches(q[1], "FatVolume::cluster_to_block")]
+            _c = strip_refs(ctb[0][2][1]) if len(ctb) == 1 else ("none",)
+            ok = len(ctb) == 1 and _c[0] == "place" and _c[1][:2] == ("arg", 3) and tuple(_c[2]) == ("*", "1")
+            ok = ok and peq(blk, ADD(ctb[0], DIV(SUB(want, st0), C(512))))
+            rem = ("cast", "usize", REM(want, C(512)), "u32")
+            ok = ok and peq(off, rem)
+            ok = ok and peq(av, SUB(C(512), rem))
         R.require(ok, fn, "result-formula", "find_data_on_disk must return (cluster_to_block(start.1) + (desired - start.0)/512, desired %% 512, 512 - desired %% 512); got %s" % tstr(v), fn.loc(b, i))
     # loop trip count and per-link advance
     rng = None
     for b, i, s in fn.stmts():
         if s["k"] == "Assign" and s["rv"]["k"] == "Aggregate" and s["rv"].get("adt", "").endswith("Range"):
             rng = [fn.term_of_operand(o, b) for o in s["rv"]["ops"]]
-    okr = rng is not None and rng[0][:2] == ("c", 0) and tmatch(rng[1], ("bin", "Div", ("bin", "Sub", ("arg", "desired_offset"), ("place", ("arg", "start"), ("*", "0"))), ("call", "FatVolume::bytes_per_cluster"))) is not None
+    from .poly import peq as _peq, ADD as _ADD, SUB as _SUB, DIV as _DIV, MUL as _MUL, C as _C
+    _want = ("arg", 5, "desired_offset")
+    _st0 = ("place", ("arg", 3, "start"), ("*", "0"))
+    bpcs = [q for x in (rng or []) for q in subterms(x) if q[0] == "call" and q[1] and path_matches(q[1], "FatVolume::bytes_per_cluster")]
+    okr = rng is not None and bool(bpcs) and _peq(rng[0], _C(0)) and _peq(rng[1], _DIV(_SUB(_want, _st0), bpcs[0]))
     R.require(okr, fn, "link-count", "the cursor must advance by (desired_offset - start.0) / bytes_per_cluster links; loop range is %s" % ([tstr(x) for x in rng] if rng else None), fn.loc(0))
-    adv = [(b, i) for b, i, s in fn.stmts() if s["k"] == "Assign" and s["p"]["proj"] and fn.place_str(s["p"]) == "(*start).0"
-           and tmatch(fn.term_of_rvalue(s["rv"], b), ("bin", "Add", ("place", ("arg", "start"), ("*", "0")), ("call", "FatVolume::bytes_per_cluster"))) is not None]
+    adv = []
+    for b, i, s in fn.stmts():
+        if arg_field_store(s, 3, 0):
+            v = fn.term_of_rvalue(s["rv"], b)
+            if _peq(v, _C(0)):
+                continue       # the rewind (checked by SK2)
+            cs = [q for q in subterms(v) if q[0] == "call" and q[1] and path_matches(q[1], "FatVolume::bytes_per_cluster")]
+            adv.append((b, i, bool(cs) and _peq(v, _ADD(_st0, cs[0]))))
+    adv_bad = [a for a in adv if not a[2]]
+    adv = [a for a in adv if a[2]] if not adv_bad else []
     R.require(len(adv) == 1, fn, "offset-advance", "each FAT link must add bytes_per_cluster to the cursor offset", fn.loc(0))
     bpc = F.fn(FATVOL + "::bytes_per_cluster")
     rets = [bpc.term_of_rvalue(s["rv"], b) for b, i, s in bpc.stmts() if s["k"] == "Assign" and s["p"]["l"] == 0 and not s["p"]["proj"]]
-    R.require(len(rets) == 1 and tmatch(rets[0], ("bin", "Mul", ("call", "From::from", [("place", ("arg", "self"), ("*", "blocks_per_cluster"))]), ("c", 512))) is not None, bpc, "bytes_per_cluster", "bytes_per_cluster must be blocks_per_cluster * 512", bpc.loc(0))
+    R.require(len(rets) == 1 and _peq(rets[0], _MUL(("place", ("arg", 1, "self"), ("*", "blocks_per_cluster")), _C(512))), bpc, "bytes_per_cluster", "bytes_per_cluster must be blocks_per_cluster * 512", bpc.loc(0))
 
 
 @rule("RD1", ["C01"], floor=5,
@@ -536,10 +589,9 @@ def rd1(F, R):
             e2 = tmatch(rs["$b"], ("bin", "Add", "$x", "$n"))
             ok = e2 is not None and e2["$x"] == rs["$a"] and e2["$n"] == tc and _is_fdd_comp(rs["$a"], 1)
         R.require(ok, fn, "copy-ranges", "the copy must be buffer[read..read+n] <- block[block_offset..block_offset+n] with the same n", fn.loc(b))
-        okn = tc is not None and tmatch(tc, ("call", "min", [("call", "min", ["$av", "$space"]), ("cast", ("call", "FileInfo::left"))])) is not None
-        if okn:
-            e3 = tmatch(tc, ("call", "min", [("call", "min", ["$av", "$space"]), "_"]))
-            okn = _is_fdd_comp(e3["$av"], 2) and strip_refs(e3["$space"])[0] == "var"
+        ma = min_args(tc) if tc is not None else []
+        okn = (len(ma) == 3 and sum(1 for x in ma if _is_fdd_comp(x, 2)) == 1 and sum(1 for x in ma if strip_refs(x)[0] == "var" and not _is_fdd_comp(x, 2)) == 1
+               and sum(1 for x in ma if has_sub(x, lambda q: q[0] == "call" and q[1] and path_matches(q[1], "FileInfo::left"))) == 1)
         R.require(okn, fn, "to_copy", "to_copy must be min(block_avail, space, file.left()); got %s" % (tstr(tc)[:200] if tc else None), fn.loc(b))
         R.require("buffer" in tstr(dst) and has_sub(src, lambda q: q[0] == "call" and q[1] and path_matches(q[1], "BlockCache::read")), fn, "copy-direction", "data must flow from the cached block into the caller's buffer", fn.loc(b))
         # bookkeeping after the copy
@@ -595,8 +647,12 @@ def wr1(F, R):
         R.require(ok, fn, "copy-ranges", "the copy must be block[block_offset..block_offset+n] <- buffer[written..written+n] with the same n", fn.loc(b))
         okn = False
         if tc is not None:
-            e3 = tmatch(tc, ("call", "min", ["$av", ("bin", "Sub", "$total", "$written")]))
-            okn = e3 is not None and _is_fdd_comp(e3["$av"], 2) and e3["$written"] == (rs["$a"] if rs else None)
+            ma = min_args(tc)
+            e3 = None
+            if len(ma) == 2 and sum(1 for x in ma if _is_fdd_comp(x, 2)) == 1:
+                other = [x for x in ma if not _is_fdd_comp(x, 2)][0]
+                e3 = tmatch(other, ("bin", "Sub", "$total", "$written"))
+            okn = e3 is not None and e3["$written"] == (rs["$a"] if rs else None)
             if okn:
                 tot = e3["$total"]
                 okn = tmatch(tot, ("call", "min", [("any", ("call", "len"), ("un", "PtrMetadata", "_")), "_"])) is not None and "MAX_FILE_SIZE" in tstr(tot) and "current_offset" in tstr(tot)
@@ -676,11 +732,11 @@ def cb1(F, R):
     fdb = self_field("first_data_block")
     cl = ("arg", 2, "cluster")
     def is_root(g):
-        if g.kind == "value" and g.value == 0xFFFFFFFC and "cluster" in tstr(g.term):
+        if g.kind == "value" and g.value == 0xFFFFFFFC and has_sub(g.term, lambda q: q[:2] == ("arg", 2)):
             return True
         if g.kind == "bool" and g.truth and g.term[0] == "cmp" and g.term[1] == "Eq":
             ab = [tstr(g.term[2]), tstr(g.term[3])]
-            return any(x.startswith("cluster") for x in ab) and any("ROOT_DIR" in x or x in ("4294967292", "0xfffffffc") for x in ab)
+            return any(has_sub(x, lambda q: q[:2] == ("arg", 2)) for x in (g.term[2], g.term[3])) and any("ROOT_DIR" in x or x in ("4294967292", "0xfffffffc") for x in ab)
         return False
 
     def classify_alts(arm, root_formula, data_formula):
@@ -711,7 +767,7 @@ def cb1(F, R):
               "FAT32 mapping must be lba_start + first_data_block + (n-2)*blocks_per_cluster with n = (cluster == ROOT_DIR ? first_root_dir_cluster : cluster); unexpected: %s" % (g32["other"] or "missing alternative"), fn.loc(0))
     rg = F.fn("blockdevice::BlockIdx::range")
     calls = [rg.call_term(t, b) for b, t in rg.calls()]
-    okr = any(tmatch(c, ("call", "BlockIter::new", [("arg", "self"), ("call", "Add::add", [("arg", "self"), ("agg", "BlockCount", [("place", ("arg", "num"), ("0",))])])])) is not None for c in calls)
+    okr = any(tmatch(c, ("call", "BlockIter::new", [("arg", 1), ("call", "Add::add", [("arg", 1), ("agg", "BlockCount", [("place", ("arg", 2), ("0",))])])])) is not None for c in calls)
     R.require(okr, rg, "range", "BlockIdx::range(num) must iterate from self to self + num", rg.loc(0))
     nx = [f for f in F.fns if f.npath.endswith("BlockIter as core::iter::Iterator>::next")]
     okn = False
@@ -730,8 +786,8 @@ def fi1(F, R):
     def ret(fn):
         r = [fn.term_of_rvalue(s["rv"], b) for b, i, s in fn.stmts() if s["k"] == "Assign" and s["p"]["l"] == 0 and not s["p"]["proj"]]
         return r[0] if len(r) == 1 else None
-    off = ("place", ("arg", "self"), ("*", "current_offset"))
-    size = ("place", ("arg", "self"), ("*", "entry", "size"))
+    off = ("place", ("arg", 1), ("*", "current_offset"))
+    size = ("place", ("arg", 1), ("*", "entry", "size"))
     f = F.fn("FileInfo::eof")
     t = ret(f)
     R.require(t is not None and (tmatch(t, ("bin", "Eq", off, size)) is not None or tmatch(t, ("bin", "Eq", size, off)) is not None), f, "eof", "eof() must be current_offset == size, got %s" % (tstr(t) if t else None), f.loc(0))
